@@ -359,7 +359,20 @@ def run(ctx):
 
 
 def replay(ctx, data):
-    r = data["replay"]["input"]
     import random
-    print(oracle(random.Random(0), F(r["cargo_size"]), F(r["time_horizon"]), r["port"], F(r["inventory_init"]),
-                 F(r["inventory_rate"]), F(r["inventory_cap"])))
+    rep = data["replay"]
+    r = rep.get("input")
+    if not r or "cargo_size" not in r:
+        print(rep.get("step") or rep.get("correspondence") or rep)
+        return
+    size, init, rate, cap = F(r["cargo_size"]), F(r["inventory_init"]), F(r["inventory_rate"]), F(r["inventory_cap"])
+    if r["port"].startswith("get_time_window"):
+        k = int(r["port"].split("=")[1])
+        w = run_window(size, k, init, rate, cap)
+        if rate > 0:
+            lv = (init + rate * w[0] - (k + 1) * size, init + rate * w[1] - k * size - cap)
+        else:
+            lv = (init + rate * w[0] + (k + 1) * size - cap, init + rate * w[1] + k * size)
+        print(f"get_time_window({k}) = ({w[0]}, {w[1]}); distance of the inventory from the boundary level at the two ends: {lv[0]}, {lv[1]}")
+        return
+    print(oracle(random.Random(0), size, F(r["time_horizon"]), r["port"], init, rate, cap))
